@@ -130,6 +130,18 @@ def build_harness(lib, sources, out, whitebox=(), extra=(), ldflags=()):
     return out
 
 
+def build_harness_wb(lib, sources, out, whitebox, notes=None, **kw):
+    """Harness with a white-box seam (#include "src/X.c"); if the seam no longer compiles against the
+    working tree (refactored internals) fall back to the black-box build: fewer observations, no alarm."""
+    try:
+        return build_harness(lib, sources, out, whitebox=whitebox, **kw)
+    except ToolError as e:
+        if notes is not None:
+            notes.append("white-box seam %s unavailable, black-box only: %s" % (list(whitebox), str(e)[-300:]))
+        extra = list(kw.pop("extra", ())) + ["-DNO_WHITEBOX"]
+        return build_harness(lib, sources, out, whitebox=(), extra=extra, **kw)
+
+
 # ---------------------------------------------------------------- TLC
 
 class TlcResult:
@@ -177,7 +189,7 @@ def tlc(module, cfg, wd, workers=None, xmx="4g", extra=(), env=None, timeout=180
     """Run TLC on spec/<module>.tla with spec/<cfg>. Returns TlcResult."""
     tag = tag or (module + "_" + os.path.basename(cfg).replace(".cfg", ""))
     meta = os.path.join(wd, "meta_" + tag + "_%d" % random.randrange(1 << 30))
-    cmd = ["java", "-XX:+UseParallelGC", "-Xmx" + xmx, "-cp", TLAJARS, "tlc2.TLC",
+    cmd = ["java", "-XX:+UseParallelGC", "-Xss128m", "-Xmx" + xmx, "-cp", TLAJARS, "tlc2.TLC",
            "-workers", str(workers or min(NCPU, 8)), "-metadir", meta, "-noGenerateSpecTE",
            "-config", os.path.join(SPEC, cfg)]
     if not deadlock:
